@@ -23,7 +23,7 @@ TOL32 = 2e-5      # numpy >= 2 keeps single precision through the FFT for float3
 
 
 def tol_for(case):
-    return TOL32 if case.get("kind") == "float32" else TOL
+    return TOL32 if case.get("kind") in ("float32", "complex64") else TOL
 
 
 def entry(name, where):
@@ -42,13 +42,15 @@ def sig1(draw, twod=False, nmax=None):
     N = draw(st.integers(1, nmax or (24 if twod else 65)))
     batch = tuple(draw(st.sampled_from([(), (), (1,), (3,), (2, 2), (3, 2)])))
     shape = batch + ((N, N) if twod else (N,))
-    kind = draw(st.sampled_from(["complex", "real", "float32", "int", "impulse", "uint8", "int16"]))
+    kind = draw(st.sampled_from(["complex", "real", "float32", "complex64", "int", "impulse", "uint8", "int16"]))
     if kind == "complex":
         x = draw(gen.complex_array(shape, kind="dense"))
     elif kind == "real":
         x = draw(gen.float_array(shape, kind="dense"))
     elif kind == "float32":
         x = draw(gen.float_array(shape, kind="dyadic", dtype="float32"))
+    elif kind == "complex64":
+        x = (draw(gen.float_array(shape, kind="dyadic")) + 1j * draw(gen.float_array(shape, kind="dyadic"))).astype(np.complex64)
     elif kind == "int":
         x = draw(gen.int_array(shape, -50, 50))
     elif kind == "uint8":
@@ -59,13 +61,32 @@ def sig1(draw, twod=False, nmax=None):
         x = draw(gen.complex_array(shape, kind="sparse"))
     y = draw(gen.complex_array(shape, kind="dense"))
     return {"x": x, "y": y, "delta": draw(st.one_of(gen.logfloat(1e-3, 1e3), st.sampled_from([1, 2, 3, 5]))), "where": draw(st.sampled_from(["module", "package"])),
-            "a": draw(gen.dyadic(-2, 2, 16)), "b": draw(gen.dyadic(-2, 2, 16)), "k": draw(st.integers(-N, N)), "kind": kind}
+            "a": draw(gen.dyadic(-2, 2, 16)), "b": draw(gen.dyadic(-2, 2, 16)), "k": draw(st.integers(-N, N)), "kind": kind,
+            "amp_exp": draw(st.sampled_from([-60, -50, -44, -30, -20, -14, -7, 7, 20, 40, 60]))}
 
 
 def classes_for(case, twod):
     x = case["x"]
     N = x.shape[-1]
     return ["delta_int" if isinstance(case["delta"], int) else "delta_float", "odd" if N % 2 else "even", "batch%d" % (x.ndim - (2 if twod else 1)), case["where"], case["kind"]]
+
+
+
+def homogeneity(ctx, case, fwd, inv, x, y, X, yi, delta, df, T, what):
+    """Scaling by a power of two is exact in binary floating point (no under/overflow at these magnitudes), so
+    the transforms of 2^e x must be bit-for-bit 2^e times the transforms of x, and weak signals must survive
+    the round trip just as strong ones do."""
+    e = case.get("amp_exp", 0)
+    if not e or x.dtype.kind not in "fc":
+        return
+    s = 2.0 ** e
+    xs, ys = x * s, y * s
+    ctx.require(xs.dtype == x.dtype, "harness: scaling changed the dtype")
+    Xs = fwd(xs, delta)
+    ctx.equal(Xs, X * s, "%s(2^%d x) == 2^%d %s(x) exactly" % (what, e, e, what))
+    yis = inv(ys, df)
+    ctx.equal(yis, yi * s, "i%s(2^%d X) == 2^%d i%s(X) exactly" % (what, e, e, what))
+    ctx.close(inv(Xs, df), xs.astype(np.complex128), T, "i%s(%s(x)) == x at amplitude 2^%d" % (what, what, e), scale=norm(xs))
 
 
 def body_1d(ctx, case):
@@ -102,6 +123,7 @@ def body_1d(ctx, case):
         ctx.close(X, per, max(1e-13, T * 1e-3), "ft batch == per item", scale=nx * delta * math.sqrt(N))
         peri = np.stack([ift(Y.reshape(-1, N)[i], df) for i in range(flat.shape[0])]).reshape(yi.shape)
         ctx.close(yi, peri, max(1e-13, T * 1e-3), "ift batch == per item", scale=norm(Y) * df * math.sqrt(N))
+    homogeneity(ctx, case, ft, ift, x, y, X, yi, delta, df, T, "ft")
     # shift theorem (cyclic shift by k samples)
     k = case["k"]
     c = N // 2
@@ -131,6 +153,7 @@ def body_2d(ctx, case):
     ctx.close(rhs, lhs, T, "Parseval 2-D", scale=max(lhs, 1e-300))
     a, b = case["a"], case["b"]
     ctx.close(ft2(a * x + b * y, delta), a * X + b * ft2(y, delta), T, "ft2 linearity", scale=(abs(a) * nx + abs(b) * norm(y) + 1e-300) * delta ** 2 * N)
+    homogeneity(ctx, case, ft2, ift2, x, y, X, yi, delta, df, T, "ft2")
     if x.ndim > 2:
         flat = x.reshape((-1, N, N))
         per = np.stack([ft2(flat[i], delta) for i in range(flat.shape[0])]).reshape(X.shape)
